@@ -499,4 +499,113 @@ Proof.
     apply (del_fails _ _ l); [exact He|exact (cn_sorted _ _ C)|exact Hlk].
 Qed.
 
+(** * Iter *)
+Definition fitsl_of (P : node -> Prop) (l : link) : Prop :=
+  match l with LNil => True | LPtr c => P c | LHash _ c => P c | LBad _ => False end.
+Fixpoint fits (fuel : nat) (n : node) : Prop :=
+  match fuel with
+  | O => False
+  | S f => fitsl_of (fits f) (n_l0 _ _ n) /\ Forall (fun e : entry => fitsl_of (fits f) (elink _ _ e)) (n_es _ _ n)
+  end.
+Notation fitsl f := (fitsl_of (fits f)).
+
+Lemma fits_S f n : fits (S f) n <-> fitsl f (n_l0 _ _ n) /\ Forall (fun e : entry => fitsl f (elink _ _ e)) (n_es _ _ n).
+Proof. reflexivity. Qed.
+
+Lemma fitsl_subl : forall d (c : link) s,
+  (forall n l, erase_n n = bnode d l -> fits (S d) n) ->
+  erase_l c = build d s -> fitsl (S d) c.
+Proof.
+  intros d c s IH Hc. destruct s as [|x s].
+  - rewrite build_nil in Hc. apply erase_l_nil in Hc. subst c. exact I.
+  - rewrite build_not_nil in Hc by discriminate.
+    destruct c as [|c|h c|h]; cbn [Erase.erase_l] in Hc; try discriminate; inversion Hc as [Hc']; cbn [fitsl_of]; eapply IH; exact Hc'.
+Qed.
+
+Lemma fits_bnode : forall d n l, erase_n n = bnode d l -> fits (S d) n.
+Proof.
+  induction d as [|d IH]; intros n l He; destruct (node_inv K V layer _ _ _ He) as [H0 Hes]; cbn [fits].
+  - cbn [Build.subl] in *. apply erase_l_nil in H0. rewrite H0. split; [exact I|].
+    revert Hes. generalize (snd (segs 0 l)). induction (n_es _ _ n) as [|[[k v] lk] es IHes]; intros ps Hes; [constructor|].
+    destruct ps as [|p ps]; [discriminate|]. unfold Build.mk_es in Hes. cbn [map] in Hes.
+    unfold Erase.erase_e at 1 in Hes. cbn [ekey eval elink fst snd] in Hes. injection Hes as _ _ Hl Hes.
+    apply erase_l_nil in Hl. subst lk. constructor; [exact I|exact (IHes ps Hes)].
+  - cbn [Build.subl] in *. split; [exact (fitsl_subl d _ _ IH H0)|].
+    revert Hes. generalize (snd (segs (S d) l)). induction (n_es _ _ n) as [|[[k v] lk] es IHes]; intros ps Hes; [constructor|].
+    destruct ps as [|p ps]; [discriminate|]. unfold Build.mk_es in Hes. cbn [map] in Hes.
+    unfold Erase.erase_e at 1 in Hes. cbn [ekey eval elink fst snd] in Hes. injection Hes as _ _ Hl Hes.
+    constructor; [exact (fitsl_subl d _ _ IH Hl)|exact (IHes ps Hes)].
+Qed.
+
+Lemma fits_mono : forall f n, fits f n -> fits (S f) n.
+Proof.
+  induction f as [|f IH]; intros n H; [contradiction|].
+  cbn [fits] in H. destruct H as [H0 Hes]. change (fits (S (S f)) n) with (fitsl (S f) (n_l0 _ _ n) /\ Forall (fun e : entry => fitsl (S f) (elink _ _ e)) (n_es _ _ n)). split.
+  - revert H0. destruct (n_l0 _ _ n) as [|c|h c|h]; unfold fitsl_of; intros H0; [exact I|exact (IH c H0)|exact (IH c H0)|exact H0].
+  - eapply Forall_impl; [|exact Hes]. intros e He. cbn beta in *. revert He.
+    destruct (elink _ _ e) as [|c|h c|h]; unfold fitsl_of; intros He; [exact I|exact (IH c He)|exact (IH c He)|exact He].
+Qed.
+
+Lemma iter_fits : forall fuel n, fits fuel n -> oks (iter_node _ _ fuel n) (fun r => r = to_list_n _ _ n).
+Proof.
+  induction fuel as [|f IH]; intros n H; [contradiction|].
+  cbn [fits] in H. destruct H as [H0 Hes]. destruct n as [d s l0 es]. cbn [n_l0 n_es] in *.
+  cbn [iter_node n_l0 n_es]. rewrite to_list_n_eq.
+  assert (Hsub : forall l, fitsl f l ->
+     oks (match l with LNil => ret [] | _ => let* c := load _ _ l in iter_node _ _ f c end) (fun r => r = to_list _ _ l)).
+  { intros l Hl. destruct l as [|c|h c|h]; cbn [fitsl_of] in Hl; [apply oks_ret; reflexivity| | |contradiction].
+    - cbn [load]. apply (oks_bind _ _ (fun c0 => c0 = c)); [apply oks_ret; reflexivity|]. intros c0 ->. exact (IH c Hl).
+    - cbn [load]. apply (oks_bind _ _ (fun c0 => c0 = c)).
+      + apply (oks_bind _ _ (fun _ => True)); [exists [ELoad h], tt; split; [reflexivity|exact I]|intros; apply oks_ret; reflexivity].
+      + intros c0 ->. exact (IH c Hl). }
+  apply (oks_bind _ _ _ _ (Hsub l0 H0)). intros a ->.
+  eapply oks_bind.
+  - instantiate (1 := fun r => r = flat_map (fun e : entry => (ekey _ _ e, eval _ _ e) :: to_list _ _ (elink _ _ e)) es).
+    induction Hes as [|[[k v] l] r Hl _ IHr]; [apply oks_ret; reflexivity|].
+    cbn [elink snd] in Hl. apply (oks_bind _ _ _ _ (Hsub l Hl)). intros x ->.
+    apply (oks_bind _ _ _ _ IHr). intros y ->. apply oks_ret. reflexivity.
+  - intros b ->. apply oks_ret. reflexivity.
+Qed.
+
+Theorem iter_ok m l : canon m l -> oks (iter _ _ m) (fun r => r = l).
+Proof.
+  intros C. destruct (cn_root _ _ C) as (n & Hn & He). unfold iter.
+  pose proof (iter_fits _ _ (fits_bnode _ _ _ He)) as Hit. rewrite (canon_list _ _ _ He) in Hit.
+  destruct (m_root _ _ m) as [|c|h c|h] eqn:Er.
+  - apply oks_ret. rewrite (root_nil_list _ _ C Er). reflexivity.
+  - apply (oks_bind _ _ _ _ (load_root _ _ Hn ltac:(discriminate))). intros c0 ->. exact Hit.
+  - apply (oks_bind _ _ _ _ (load_root _ _ Hn ltac:(discriminate))). intros c0 ->. exact Hit.
+  - discriminate.
+Qed.
+
+(** * Clone, the empty tree *)
+Theorem clone_ok m l : canon m l -> oks (clone _ _ m) (fun m' => canon m' l).
+Proof.
+  intros C. destruct (cn_root _ _ C) as (n & Hn & He). unfold clone.
+  assert (Hc : canon (set_root _ _ m (LPtr n) (m_emptied _ _ m)) l).
+  { constructor; cbn [set_root m_root m_height m_size m_bf m_grow_after m_shrink_below];
+      [exists n; split; [reflexivity|exact He]|apply C..]. }
+  destruct (m_root _ _ m) as [|c|h c|h] eqn:Er.
+  - apply oks_ret. exact C.
+  - apply (oks_bind _ _ _ _ (load_root _ _ Hn ltac:(discriminate))). intros c0 ->. apply oks_ret. exact Hc.
+  - apply (oks_bind _ _ _ _ (load_root _ _ Hn ltac:(discriminate))). intros c0 ->. apply oks_ret. exact Hc.
+  - discriminate.
+Qed.
+
+Lemma hrule_empty bf : hrule bf [] 0.
+Proof. split; [left; reflexivity|]. intros [H _]. inversion H. Qed.
+
+Theorem empty_canon bf emp : (2 <= bf)%N ->
+  canon (Mast (LPtr (fresh_node K V)) 0 0%N bf (1 * bf)%N 1%N emp) [].
+Proof.
+  intros Hbf. constructor; cbn [m_root m_height m_size m_bf m_grow_after m_shrink_below].
+  - exists (fresh_node K V). split; [reflexivity|apply erase_fresh].
+  - constructor.
+  - reflexivity.
+  - exact Hbf.
+  - cbn [pow_N]. lia.
+  - reflexivity.
+  - apply hrule_empty.
+Qed.
+
 End INV.
